@@ -310,7 +310,8 @@ func setExpectedRule(P *Program, R *Report) {
 	// the contributions are appended
 	roots := nonErrorReturnValues(cc, 0, 1)
 	found := false
-	for x := range depsIP(P, roots, 0) {
+	// (computed in this function or in a helper whose result it appends)
+	for x := range depsIP(P, roots, 1) {
 		if c, ok := x.(*ssa.Call); ok && calleeIs(c, "revocation.(*Proof).ChallengeContributions") {
 			found = true
 		}
